@@ -920,7 +920,27 @@ def _slice_axis(I, d, sl):
 
 
 def getitem(I, t, key):
+    out = _getitem(I, t, key)
+    if isinstance(out, Tensor) and "fw" in t.meta and "fw" not in out.meta:
+        out.meta["fw"] = t.meta["fw"]  # float width (ghost): indexing keeps the dtype
+    return out
+
+
+def _np_keys(key):
+    """numpy index arrays / masks index a torch tensor exactly like the tensors of the same contents"""
+    from .torchlib import NumpyArray
+
+    conv = lambda k: Tensor(k.val) if isinstance(k, NumpyArray) else k
+    if isinstance(key, tuple):
+        return tuple(conv(k) for k in key)
+    if isinstance(key, list):
+        return [conv(k) for k in key]
+    return conv(key)
+
+
+def _getitem(I, t, key):
     IN = _IN()
+    key = _np_keys(key)
     a = t.val
     if isinstance(key, list) and any(isinstance(k, (slice, list, tuple, Tensor)) or k is None or k is Ellipsis for k in key):
         key = tuple(key)  # torch treats such sequences as tuples
@@ -1137,6 +1157,8 @@ def getitem(I, t, key):
         out = Tensor(val)
     if t.requires_grad or "deps" in t.meta:
         out.meta["view_of"] = t
+    if "fw" in t.meta:
+        out.meta["fw"] = t.meta["fw"]  # float width (ghost): indexing keeps the dtype
     # remember gathers / selector slices for setitem and len()
     for st in plan:
         if st[0] == "adv" and "sel" in st[2].meta and st[1] == 0:
@@ -1234,6 +1256,7 @@ def _int_index(I, d, k):
 def setitem(I, t, key, v):
     """t[key] = v  (in place on the heap cell)"""
     IN = _IN()
+    key = _np_keys(key)
     a = t.val
     if isinstance(key, list) and any(isinstance(k, (slice, list, tuple, Tensor)) or k is None or k is Ellipsis for k in key):
         key = tuple(key)
